@@ -30,6 +30,7 @@ type CompCase struct {
 	Budget   int    `json:"budget,omitempty"`    // number of damage positions to try
 	All      bool   `json:"all,omitempty"`       // enumerate every position
 	DSeed    uint64 `json:"dseed,omitempty"`
+	Fill     int    `json:"fill,omitempty"` // record contents: 0 pseudo-random, 1 zeros, 2 one constant byte (tag bytes aside)
 	// table
 	Pairs     []Rec  `json:"pairs,omitempty"`
 	BlockSize int    `json:"bs,omitempty"`
@@ -111,14 +112,19 @@ func (w *failWriter) Write(p []byte) (int, error) {
 	return len(p), nil
 }
 
-func recBytes(i, n int) []byte {
+func recBytes(i, n, fill int) []byte {
 	b := make([]byte, n)
 	x := uint64(i)*0x9e3779b97f4a7c15 + 12345
 	for j := range b {
 		x ^= x << 13
 		x ^= x >> 7
 		x ^= x << 17
-		b[j] = byte(x)
+		switch fill {
+		case 0:
+			b[j] = byte(x)
+		case 2:
+			b[j] = 0x5a
+		}
 	}
 	if n >= 4 {
 		b[0], b[1], b[2], b[3] = byte(i), byte(i>>8), byte(n), byte(n>>8)
@@ -173,7 +179,7 @@ func runJournal(c *Case, out *RunOut) {
 	werr := false
 	pending := []int{}
 	for i, l := range cc.Lens {
-		rb := recBytes(i, l)
+		rb := recBytes(i, l, cc.Fill)
 		wr, err := w.Next()
 		if err != nil {
 			werr = true
@@ -234,6 +240,7 @@ func runJournal(c *Case, out *RunOut) {
 		return
 	}
 	byteDamage := false
+	cut := -1 // >= 0 while truncations are examined: the stream ends here
 	check := func(what string, d []byte, strict bool, damaged map[int]bool, anyDamage bool) bool {
 		recs, err, pan := readJournal(d, strict)
 		if pan != "" {
@@ -285,6 +292,34 @@ func runJournal(c *Case, out *RunOut) {
 		if !okSub {
 			viol("invented", fmt.Sprintf("%s (strict=%v): the %d yielded records are not a subsequence of the %d written ones", what, strict, len(recs), len(orig)))
 			return false
+		}
+		if cut >= 0 {
+			// a record that is not completely in the stream cannot be yielded
+			// from the stream: the reader must have completed it from bytes
+			// beyond the data it was given (e.g. a stale buffer)
+			idx := make([]int, 0, len(got))
+			for i := range got {
+				idx = append(idx, i)
+			}
+			sort.Ints(idx)
+			for _, i := range idx {
+				sp, ok := span[i]
+				if !ok || sp[1] <= cut {
+					continue
+				}
+				// identical records elsewhere in the stream may explain it
+				explained := false
+				for j := range orig {
+					if sj, ok := span[j]; ok && sj[1] <= cut && !got[j] && bytes.Equal(orig[j], orig[i]) {
+						explained = true
+						break
+					}
+				}
+				if !explained {
+					viol("yielded-beyond-cut", fmt.Sprintf("%s (strict=%v): record %d occupies [%d,%d) but the stream ends at %d: it was completed from bytes that are not in the stream", what, strict, i, sp[0], sp[1], cut))
+					return false
+				}
+			}
 		}
 		if okKeep, g2 := match(true); okKeep {
 			got = g2
@@ -420,6 +455,7 @@ func runJournal(c *Case, out *RunOut) {
 		sort.Ints(offs)
 	}
 	for _, t := range offs {
+		cut = t
 		dm := touch(t, len(data))
 		// records that end at or before t in earlier blocks must be kept;
 		// those in the cut block may go
@@ -432,6 +468,7 @@ func runJournal(c *Case, out *RunOut) {
 		out.OpsDone++
 		out.Fired["truncate/journal"]++
 	}
+	cut = -1
 	// (c) byte damage
 	byteDamage = true
 	// every byte of the first chunk headers (checksum, length, type)
@@ -870,6 +907,7 @@ func genComponent(prop string, seed uint64, g *gen, thorough bool) *Case {
 			cc.FailAt = r.rng(1, 12)
 			cc.FailKind = []string{"err", "short"}[r.intn(2)]
 		}
+		cc.Fill = r.pick(0, 0, 0, 1, 2)
 		cc.Budget = 48
 		if thorough {
 			cc.Budget = 512
